@@ -55,6 +55,8 @@ pub enum Action {
     Close(usize),
     PollRecv,
     SpuriousPollRecv,
+    /// spurious poll with the very same waker as the previous poll
+    RepollSameWaker,
     SenderFromReceiver,
     DropReceiver,
     /// n plain sends in a row through sender s
@@ -66,6 +68,11 @@ pub enum Action {
     DropGuard(usize),
     Available(usize, usize),
     SpuriousAvailable(usize, usize),
+    /// the refused task asks again with the very same waker
+    AvailableSameWaker(usize, usize),
+    /// a task whose waker, when woken, asks the counter again at once (synchronously, inside
+    /// `wake()`) queries the counter
+    AvailableReentrant,
     CloneCounter,
     // local waker
     Register(usize),
@@ -140,9 +147,9 @@ impl Engine for ChanSim {
     fn describe(prop: &str) -> Describe {
         Describe {
             rule: if prop == "C16" {
-                "seeded operation sequences (3..12 ops quick, up to 40 thorough) over {send, Sink send, clone/drop sender, close, poll receiver (strict-wake: only when never polled or woken; spurious polls are a separate counted action), sender-from-receiver, drop receiver; in an eighth of the runs also bursts of 33/40/100 sends and of back-to-back receives} with <=3 live senders, checked op by op against a FIFO queue model; non-trivial = at least one message received and at least one Pending poll; distinct = distinct hash of the abstract event trace".into()
+                "seeded operation sequences (3..12 ops quick, up to 40 thorough) over {send, Sink send, clone/drop sender, close, poll receiver (strict-wake: only when never polled or woken; spurious polls — with a fresh waker or with the very same waker again — are separate counted actions), sender-from-receiver, drop receiver; in an eighth of the runs also bursts of 33/40/100 sends and of back-to-back receives} with <=3 live senders, checked op by op against a FIFO queue model; non-trivial = at least one message received and at least one Pending poll; distinct = distinct hash of the abstract event trace".into()
             } else {
-                "seeded operation sequences over {acquire guard, drop any live guard, query available from task i (strict-wake), clone counter} for capacities 0..3, and {register w_i, wake, take} on a LocalWaker, checked op by op against a counter / slot model; non-trivial = at least one refusal and one release (counter) or one register and one wake/take (LocalWaker); distinct = distinct event-trace hash".into()
+                "seeded operation sequences over {acquire guard, drop any live guard, query available from task i (strict-wake; also again with the very same waker), query from a task whose waker asks again from inside wake(), clone counter} for capacities 0..3, and {register w_i, wake, take} on a LocalWaker, checked op by op against a counter / slot model; non-trivial = at least one refusal and one release (counter) or one register and one wake/take (LocalWaker); distinct = distinct event-trace hash".into()
             },
             real: vec!["local-channel::mpsc", "local-waker::LocalWaker", "actix-utils::counter::{Counter,CounterGuard}"],
             stub: vec!["executor (strict-wake manual polling with counting wakers)"],
@@ -151,9 +158,9 @@ impl Engine for ChanSim {
     }
     fn required_probes(prop: &str, _tier: Tier) -> Vec<&'static str> {
         if prop == "C16" {
-            vec!["probe.recv_parked_then_woken_by_send", "probe.end_of_stream_seen", "probe.close_with_parked_receiver", "probe.last_sender_dropped_with_parked_receiver", "probe.recv_streak_over_32"]
+            vec!["probe.recv_parked_then_woken_by_send", "probe.end_of_stream_seen", "probe.close_with_parked_receiver", "probe.last_sender_dropped_with_parked_receiver", "probe.recv_streak_over_32", "probe.repoll_same_waker"]
         } else {
-            vec!["probe.release_wakes_refused_task", "probe.refused", "probe.localwaker_wake_fired"]
+            vec!["probe.release_wakes_refused_task", "probe.refused", "probe.localwaker_wake_fired", "probe.reentrant_wake", "probe.requery_same_waker"]
         }
     }
 }
@@ -205,6 +212,7 @@ fn run_channel(cfg: &Config, ch: &mut Chooser<Action>, ctx: &mut RunCtx) -> Opti
                 en.push((Action::PollRecv, cfg.w_poll));
             } else if cfg.spurious > 0 {
                 en.push((Action::SpuriousPollRecv, cfg.spurious));
+                en.push((Action::RepollSameWaker, cfg.spurious));
             }
             if senders.len() < 3 {
                 en.push((Action::SenderFromReceiver, 1));
@@ -301,8 +309,8 @@ fn run_channel(cfg: &Config, ch: &mut Chooser<Action>, ctx: &mut RunCtx) -> Opti
                 parked = false;
                 ev!(ctx, "drop receiver");
             }
-            Action::PollRecv | Action::SpuriousPollRecv | Action::RecvMany(_) => {
-                if matches!(a, Action::SpuriousPollRecv) {
+            Action::PollRecv | Action::SpuriousPollRecv | Action::RepollSameWaker | Action::RecvMany(_) => {
+                if matches!(a, Action::SpuriousPollRecv | Action::RepollSameWaker) {
                     ctx.bump("spurious_polls");
                 } else if parked {
                     ctx.bump("probe.recv_parked_then_woken_by_send");
@@ -310,7 +318,13 @@ fn run_channel(cfg: &Config, ch: &mut Chooser<Action>, ctx: &mut RunCtx) -> Opti
                 let reps = if let Action::RecvMany(n) = a { n } else { 1 };
                 let mut streak = 0usize;
                 for _ in 0..reps {
-                let (_flag, w) = task.fresh();
+                let (_flag, w) = match (&a, task.same()) {
+                    (Action::RepollSameWaker, Some(fw)) => {
+                        ctx.bump("probe.repoll_same_waker");
+                        fw
+                    }
+                    _ => task.fresh(),
+                };
                 let mut cx = Context::from_waker(&w);
                 let r = Pin::new(rx.as_mut().unwrap()).poll_next(&mut cx);
                 let expect: Poll<Option<u32>> = if let Some(v) = queue.front() {
@@ -425,6 +439,9 @@ fn run_counter(cfg: &Config, ch: &mut Chooser<Action>, ctx: &mut RunCtx) -> Opti
     let mut registered: Option<(usize, Arc<WakeFlag>)> = None;
     let mut refusals = 0u32;
     let mut releases = 0u32;
+    let reent = Reentrant::new(counters[0].clone());
+    // the re-entrant task is the registered one
+    let mut reent_registered = false;
 
     loop {
         let mut en: Vec<(Action, u32)> = Vec::new();
@@ -442,9 +459,11 @@ fn run_counter(cfg: &Config, ch: &mut Chooser<Action>, ctx: &mut RunCtx) -> Opti
                     en.push((Action::Available(t, k), cfg.w_poll));
                 } else if cfg.spurious > 0 {
                     en.push((Action::SpuriousAvailable(t, k), cfg.spurious));
+                    en.push((Action::AvailableSameWaker(t, k), cfg.spurious));
                 }
             }
         }
+        en.push((Action::AvailableReentrant, 1));
         if counters.len() < 3 {
             en.push((Action::CloneCounter, 1));
         }
@@ -457,10 +476,26 @@ fn run_counter(cfg: &Config, ch: &mut Chooser<Action>, ctx: &mut RunCtx) -> Opti
             Action::DropGuard(g) => {
                 let pre = guards.len();
                 let before = registered.as_ref().map(|(_, f)| f.count());
+                let answers_before = reent.answers.borrow().len();
                 drop(guards.remove(g));
                 releases += 1;
                 ev!(ctx, "drop guard {g} -> live {}", guards.len());
-                if pre == cap {
+                if pre == cap && reent_registered {
+                    // woken inside the drop, the task asked again at once: the count it sees is
+                    // already the new one
+                    reent_registered = false;
+                    let answers: Vec<bool> = reent.answers.borrow()[answers_before..].to_vec();
+                    ctx.bump("probe.reentrant_wake");
+                    if answers != vec![true] {
+                        return Some(Violation::new(
+                            "reentrant-wake-sees-old-count",
+                            format!("guard drop took the count from {pre} to {} (capacity {cap}); the task that asks again from inside its wake-up got the answers {answers:?}, expected one 'available'", pre - 1),
+                        ));
+                    }
+                } else if reent.answers.borrow().len() != answers_before {
+                    return Some(Violation::new("wake-accounting", "the re-entrant task was woken by a guard drop that did not bring the count below the capacity, or while it was not the registered task"));
+                }
+                if pre == cap && registered.is_some() {
                     // count falls below capacity: the most recently refused task must be woken once
                     if let Some((t, f)) = registered.take() {
                         ctx.bump("probe.release_wakes_refused_task");
@@ -477,8 +512,29 @@ fn run_counter(cfg: &Config, ch: &mut Chooser<Action>, ctx: &mut RunCtx) -> Opti
                     }
                 }
             }
-            Action::Available(t, k) | Action::SpuriousAvailable(t, k) => {
-                let (flag, w) = tasks[t].fresh();
+            Action::AvailableReentrant => {
+                let w = reent.waker();
+                let cx = Context::from_waker(&w);
+                let r = counters[0].available(&cx);
+                let expect = guards.len() < cap;
+                ev!(ctx, "available (re-entrant task) -> {r}");
+                if r != expect {
+                    return Some(Violation::new("available-wrong", format!("available() = {r} with {} live guards and capacity {cap}", guards.len())));
+                }
+                if !r {
+                    refusals += 1;
+                    reent_registered = true;
+                    registered = None;
+                }
+            }
+            Action::Available(t, k) | Action::SpuriousAvailable(t, k) | Action::AvailableSameWaker(t, k) => {
+                let (flag, w) = match (&a, tasks[t].same()) {
+                    (Action::AvailableSameWaker(..), Some(fw)) => {
+                        ctx.bump("probe.requery_same_waker");
+                        fw
+                    }
+                    _ => tasks[t].fresh(),
+                };
                 let cx = Context::from_waker(&w);
                 let r = counters[k].available(&cx);
                 let expect = guards.len() < cap;
@@ -494,6 +550,7 @@ fn run_counter(cfg: &Config, ch: &mut Chooser<Action>, ctx: &mut RunCtx) -> Opti
                     refusals += 1;
                     ctx.bump("probe.refused");
                     registered = Some((t, flag));
+                    reent_registered = false;
                 }
             }
             Action::CloneCounter => {
@@ -520,7 +577,52 @@ fn run_counter(cfg: &Config, ch: &mut Chooser<Action>, ctx: &mut RunCtx) -> Opti
         ]));
     }
     ctx.nontrivial = refusals >= 1 && releases >= 1;
+    *reent.counter.borrow_mut() = None;
     None
+}
+
+/// A task whose waker re-polls the counter synchronously from inside `wake()`. Single-threaded by
+/// construction (`Counter` is `!Send`), hence a hand-made `RawWaker` over an `Rc`.
+struct Reentrant {
+    /// emptied at the end of a run (the counter may hold this task's waker: a cycle otherwise)
+    counter: std::cell::RefCell<Option<Counter>>,
+    answers: std::cell::RefCell<Vec<bool>>,
+}
+
+impl Reentrant {
+    fn new(counter: Counter) -> std::rc::Rc<Self> {
+        std::rc::Rc::new(Reentrant { counter: std::cell::RefCell::new(Some(counter)), answers: Default::default() })
+    }
+
+    fn waker(self: &std::rc::Rc<Self>) -> std::task::Waker {
+        use std::task::{RawWaker, RawWakerVTable};
+        unsafe fn clone(p: *const ()) -> RawWaker {
+            std::rc::Rc::<Reentrant>::increment_strong_count(p as *const Reentrant);
+            RawWaker::new(p, &VT)
+        }
+        unsafe fn wake(p: *const ()) {
+            wake_by_ref(p);
+            drop_w(p);
+        }
+        unsafe fn wake_by_ref(p: *const ()) {
+            let me = std::mem::ManuallyDrop::new(std::rc::Rc::<Reentrant>::from_raw(p as *const Reentrant));
+            let w = me.waker();
+            let cx = Context::from_waker(&w);
+            let c = me.counter.borrow().clone();
+            if let Some(c) = c {
+                let r = c.available(&cx);
+                me.answers.borrow_mut().push(r);
+            }
+        }
+        unsafe fn drop_w(p: *const ()) {
+            std::rc::Rc::<Reentrant>::decrement_strong_count(p as *const Reentrant);
+        }
+        static VT: RawWakerVTable = RawWakerVTable::new(clone, wake, wake_by_ref, drop_w);
+        let p = std::rc::Rc::into_raw(self.clone()) as *const ();
+        // SAFETY: the vtable functions treat the pointer as an `Rc<Reentrant>` they own one strong
+        // count of; the waker never leaves this thread.
+        unsafe { std::task::Waker::from_raw(RawWaker::new(p, &VT)) }
+    }
 }
 
 // ------------------------------------------------------------------------------------------------
